@@ -5,4 +5,5 @@ cd "$(dirname "$0")"
 export CARGO_NET_OFFLINE=true
 (cd lean && lake build OxiModel oxidriver)
 (cd harness && cargo build --release --offline)
+(cd /repo && cargo build --release --offline --features verif --target-dir /verif/harness/target-bin)
 echo "setup done"
